@@ -552,6 +552,12 @@ example : storeView (hrun hinit [.alloc [1], .set [9] [0] 0, .write 0 [2], .get 
     .batch 7 [9], .bset 7 [5] 3, .commit 7, .write 3 [6]]) = [([9, 5], [4]), ([9, 0], [1])] := by
   decide
 
+/-- The model has the aliasing the code has (and the statement does not exclude): a batch keeps the caller's slice until
+`Commit`, so a write *between* batch `Set` and `Commit` changes what is committed (measured on the real code on every run:
+`observation_batch_Set_keeps_callers_value_slice_until_Commit`); after `Commit` a write changes nothing. -/
+example : storeView (hrun hinit [.alloc [7], .batch 0 [], .bset 0 [0] 0, .write 0 [8], .commit 0, .write 0 [9]]) = [([0], [8])] := by
+  decide
+
 end PrivateCopies
 
 /-! ## regenerated facts about the source (`Hive/Gen/C04_Calls.lean`, `Hive/Gen/C04_Skel.lean`)
